@@ -187,7 +187,7 @@ func runC09(c *Ctx) error {
 			if r.Intn(3) == 0 {
 				u.flags = append(u.flags, "-zip")
 			}
-		case k == 10: // (b') a well-formed file cut off at an arbitrary byte, preferably inside a token
+		case k == 10 || k == 9: // (b') a well-formed file cut off at an arbitrary byte, preferably inside a token
 			g := richGrammar(r)
 			if r.Intn(2) == 0 {
 				g = hostileGrammar(r, false)
@@ -197,7 +197,14 @@ func runC09(c *Ctx) error {
 			if r.Intn(2) == 0 {
 				// cut right after an opening quote / comment / action marker
 				var spots []int
+				only := []string{"", "\"", "'", "`", "/*", "<<"}[r.Intn(6)] // one kind of opener, or any
 				for i := 0; i < len(text); i++ {
+					if only != "" {
+						if strings.HasPrefix(text[i:], only) {
+							spots = append(spots, i+len(only)+r.Intn(2))
+						}
+						continue
+					}
 					if strings.ContainsRune("\"'`", rune(text[i])) || strings.HasPrefix(text[i:], "/*") || strings.HasPrefix(text[i:], "//") {
 						spots = append(spots, i+1+r.Intn(2))
 					}
